@@ -77,7 +77,8 @@ def readResidual (n predOrder : Nat) (bs : Bits) : R (ResidualRep × Bits) := do
   let (order, bs) ← readNat 4 bs "partition order"
   if n % 2 ^ order ≠ 0 then throw "residual: block size not divisible by the number of partitions"
   let plen := n / 2 ^ order
-  if plen < predOrder then throw "residual: first partition shorter than the predictor order"
+  -- RFC 9639 section 9.2.7: (block size >> partition order) MUST be larger than the predictor order
+  if plen ≤ predOrder then throw "residual: first partition not longer than the predictor order"
   let (params, vals, rest) ← readPartitions plen predOrder (2 ^ order) 0 bs
   pure (⟨order, params, vals⟩, rest)
 
